@@ -97,6 +97,10 @@ pub struct ReplCell {
     pub closure_rounds: usize,
     /// Junk acknowledgement indices may be injected before a server frame.
     pub junk_acks: bool,
+    /// One acknowledgement message may be delayed by two rounds for one deviation (a straggler),
+    /// instead of paying one deviation per round.
+    #[serde(default)]
+    pub straggler_acks: bool,
     /// After the rounds: mutate everything, tick, and deliver every ordered subset of the
     /// resulting mutate messages first, the rest one frame later (C10, C12).
     pub split_stage: bool,
@@ -121,6 +125,8 @@ pub struct ReplExec {
     /// A violation met during the set-up rounds; reported by `finish`.
     pub setup_violation: Option<Violation>,
     pub sim: Sim,
+    /// (round in which it arrives, client, message)
+    stragglers: Vec<(usize, usize, Msg)>,
     round: usize,
     phase: Phase,
     round_ops: Vec<Op>,
@@ -600,6 +606,7 @@ impl Scenario for ReplCell {
             c11_baseline: BTreeMap::new(),
             setup_done: false,
             setup_violation: None,
+            stragglers: vec![],
             split_msgs: vec![],
             split_tick: 0,
             split_versions: BTreeMap::new(),
@@ -668,6 +675,9 @@ impl Scenario for ReplCell {
                     if self.junk_acks {
                         alts.push(("deliver + junk indices".into(), 1));
                     }
+                    if self.straggler_acks && n > 0 {
+                        alts.push(("oldest arrives two rounds late".into(), 1));
+                    }
                     return Some(ChoicePoint::env("acks", alts));
                 }
                 Phase::Upd(c) => return Some(ChoicePoint::env("upd", self.upd_alts(x, c))),
@@ -720,8 +730,24 @@ impl Scenario for ReplCell {
             }
             Phase::Acks(c) => {
                 let label = self.next(x).unwrap().alts[alt].clone();
+                // stragglers whose time has come are back at the head of the queue
+                let due: Vec<Msg> = {
+                    let round = x.round;
+                    let (now, later): (Vec<_>, Vec<_>) = std::mem::take(&mut x.stragglers).into_iter().partition(|(r, sc, _)| *sc == c && *r <= round);
+                    x.stragglers = later;
+                    now.into_iter().map(|(_, _, m)| m).collect()
+                };
+                for m in due.into_iter().rev() {
+                    x.sim.clients[c].c2s[ACK].push_front(m);
+                }
                 if label == "hold" {
                     x.line.push_str(&format!(" acks(c{c}) held;"));
+                } else if label.contains("two rounds late") {
+                    if let Some(m) = x.sim.clients[c].c2s[ACK].pop_front() {
+                        x.line.push_str(&format!(" acks(c{c}): oldest delayed by two rounds;"));
+                        x.stragglers.push((x.round + 2, c, m));
+                    }
+                    x.sim.deliver_to_server(c, ACK, &Sel::All);
                 } else {
                     x.sim.deliver_to_server(c, ACK, &Sel::All);
                 }
@@ -838,6 +864,9 @@ impl Scenario for ReplCell {
             return Err(v);
         }
         x.sim.note("closure: lock-step rounds with ticks, everything delivered");
+        for (_, c, m) in std::mem::take(&mut x.stragglers) {
+            x.sim.clients[c].c2s[ACK].push_front(m);
+        }
         for _ in 0..self.closure_rounds {
             self.lockstep_round(x, true)?;
         }
